@@ -318,12 +318,62 @@ func (a *API) ReadAll(ctx context.Context, tok int, r io.Reader) (string, error)
 		if c, ok := r.(io.Closer); ok {
 			obs += fmt.Sprintf("close=%v;", c.Close())
 		}
+	case 6:
+		// explicit Close before the end of the stream, and the usual deferred Close on
+		// top of it: the second one must be harmless
+		buf := make([]byte, t.Size/2+1)
+		n, _ := io.ReadFull(r, buf)
+		got = buf[:n]
+		if c, ok := r.(io.Closer); ok {
+			obs += fmt.Sprintf("close=%v;", c.Close())
+			simrt.Yield("between-closes")
+			obs += fmt.Sprintf("close2=%v;", c.Close() != nil)
+		}
 		// (a Read after Close is caller misuse and not constrained by the property)
 	}
 	if err != nil {
 		return "", fmt.Errorf("read error: %w", err)
 	}
 	return fmt.Sprintf("%d:%08x:%s", len(got), fnv(got), obs), nil
+}
+
+// ReadSub takes a reader and returns a channel: the stream is consumed by a
+// goroutine that keeps running after the method has returned, and reports the
+// length and the hash of what it read as the channel's two values (-1: read error).
+func (a *API) ReadSub(ctx context.Context, tok int, r io.Reader) (<-chan int, error) {
+	t := a.enter(ctx, tok)
+	defer a.leave(t)
+	ch := make(chan int)
+	a.e.S.Go("rsub-"+strconv.Itoa(tok), func() {
+		defer close(ch)
+		simrt.Yield("rsub-start")
+		var got []byte
+		buf := make([]byte, 1024)
+		for {
+			n, err := r.Read(buf)
+			got = append(got, buf[:n]...)
+			if err == io.EOF {
+				break
+			}
+			if err != nil {
+				simrt.Rec("rsub-error", strconv.Itoa(tok), err.Error(), 0)
+				select {
+				case ch <- -1:
+				case <-a.e.Done:
+				}
+				return
+			}
+			simrt.Yield("rsub-read")
+		}
+		for _, v := range []int{len(got), int(fnv(got))} {
+			select {
+			case ch <- v:
+			case <-a.e.Done:
+				return
+			}
+		}
+	})
+	return ch, nil
 }
 
 // NotifyRev is a notification whose handler calls back into the client.
@@ -666,6 +716,7 @@ type Proxy struct {
 	CallNoRetry    func(ctx context.Context, tok int) (string, error) `rpc_method:"T.Call" retry:"false"`
 	Slow           func(ctx context.Context, tok int) (string, error)
 	ReadAllRetry   func(ctx context.Context, tok int, r io.Reader) (string, error) `rpc_method:"T.ReadAll" retry:"true"`
+	ReadSub        func(ctx context.Context, tok int, r io.Reader) (<-chan int, error)
 }
 
 // ProxyPre, when merged in front of Proxy, exposes the wire method T.Call once
@@ -716,7 +767,9 @@ func (e *Env) NewClient(name string, srv *Server, o ClientOpts) (*Client, error)
 	} else if o.Ping < 0 {
 		opts = append(opts, jsonrpc.WithPingInterval(0))
 	}
-	if o.Timeout != 0 {
+	if o.Timeout < 0 {
+		opts = append(opts, jsonrpc.WithTimeout(0)) // no read deadline, no idle timer
+	} else if o.Timeout != 0 {
 		opts = append(opts, jsonrpc.WithTimeout(dur(o.Timeout)))
 	}
 	if o.BackoffMin > 0 {
